@@ -129,6 +129,9 @@ type Client struct {
 	// The transaction store has a single slot for PINGREQ exchanges (the
 	// PINGRESP carries nothing to match it by): one exchange at a time.
 	pingLock sync.Mutex
+	// Held while the state is changed and while a keep-alive PINGREQ is
+	// sent, so that a sleeping or disconnected client never sends one.
+	stateLock sync.RWMutex
 }
 
 // NewClient sets up a new client according to the provided configuration.
@@ -274,7 +277,9 @@ func (c *Client) Close() error {
 }
 
 func (c *Client) setState(new util.ClientState) {
+	c.stateLock.Lock()
 	old := c.state.Set(new)
+	c.stateLock.Unlock()
 	if new == old {
 		return
 	}
@@ -492,13 +497,21 @@ func (c *Client) PublishPredefined(topicID uint16, payload []byte, qos uint8, re
 
 // Ping sends a PING packet to the MQTT-SN gateway.
 func (c *Client) Ping() error {
+	return c.ping(false)
+}
+
+// errNotActive ends a keep-alive PINGREQ exchange of a client which has left
+// the active state meanwhile.
+var errNotActive = errors.New("client is not active")
+
+func (c *Client) ping(keepalive bool) error {
 	c.pingLock.Lock()
 	defer c.pingLock.Unlock()
-	transaction := newPingTransaction(c)
+	transaction := newPingTransaction(c, keepalive)
 	ping := pkts1.NewPingreq(nil)
 	c.transactions.StoreByType(pkts.PINGREQ, transaction)
 	transaction.Proceed(nil, ping)
-	if err := c.send(ping); err != nil {
+	if err := transaction.send(ping); err != nil {
 		transaction.Fail(err)
 	}
 	select {
